@@ -11,6 +11,7 @@ MCQ_TooLong == {{}}
 
 \* search lists over two suffixes and the root
 MCS_Search  == {<<>>, <<0>>, <<1>>, <<1, 2>>, <<1, 0, 2>>, <<2, 1, 0>>}
+MCL_Search  == {<<1>>}
 MCS_TooLong == {{}, {2}}
 
 \* real transports: two servers, UDP / TCP outcomes
